@@ -411,9 +411,9 @@ Lemma eeq_map2_compat (f : list Q -> list Q -> list Q) (x x' y y' : list (list Q
   (forall u u' v v', veq u u' -> veq v v' -> veq (f u v) (f u' v')) ->
   eeq x x' -> eeq y y' -> eeq (map2 f x y) (map2 f x' y').
 Proof.
-  intros Hc H. revert y y'. induction H; intros y y' Hy; inversion Hy; subst; cbn [map2]; constructor.
+  intros Hc H. revert y y'. induction H as [|u u' x x' Hu H IH]; intros y0 y0' Hy; inversion Hy; subst; cbn [map2]; constructor.
   - apply Hc; assumption.
-  - apply IHForall2. assumption.
+  - apply IH. assumption.
 Qed.
 
 Lemma elems_of_nat_compat (f : family) (x y : list (list Q)) : exact_family f -> eeq x y ->
@@ -547,12 +547,17 @@ Section Fixed.
   Proof. intro H. unfold b_div, is_fixed. rewrite H. reflexivity. Qed.
   Lemma fixed_pow (a : msg (T := T)) (k : T) : fam a = FFixed -> b_pow O a k = a.
   Proof. intro H. unfold b_pow, is_fixed. rewrite H. reflexivity. Qed.
+  Lemma fixed_zeros (a : msg (T := T)) : fam a = FFixed -> b_zeros O a = a.
+  Proof. intro H. unfold b_zeros. rewrite H. apply fixed_pow. exact H. Qed.
   Lemma fixed_laws (a b : msg (T := T)) (j k : T) : fam a = FFixed ->
     b_div O (b_sum O a [b]) b = a /\ b_sum O (b_div O a b) [b] = a
-    /\ b_sum O (b_pow O a j) [b_pow O a k] = b_pow O a (oadd O j k) /\ b_zeros O a = a.
+    /\ b_sum O (b_pow O a j) [b_pow O a k] = b_pow O a (oadd O j k) /\ b_sum O a [b_zeros O a] = a.
   Proof.
-    intro H. rewrite !fixed_sum, !fixed_div, !fixed_pow; try assumption; try (rewrite ?fixed_pow; assumption).
-    repeat split. unfold b_zeros. rewrite H. apply fixed_pow. exact H.
+    intro H. repeat split.
+    - rewrite (fixed_sum a [b] H). apply fixed_div. exact H.
+    - rewrite (fixed_div a b H). apply fixed_sum. exact H.
+    - rewrite !(fixed_pow a _ H). apply fixed_sum. exact H.
+    - apply fixed_sum. exact H.
   Qed.
 End Fixed.
 
@@ -581,3 +586,52 @@ Proof.
   - cbn [map]. cbn [map2]. rewrite !seqsum_cons, IH. field. exact Hc.
 Qed.
 
+Lemma map2_map_length {A B C D} (f : A -> B -> C) (g : D -> B) (t : list A) (w : list D) :
+  length t = length w -> length (map2 f t (map g w)) = length w.
+Proof.
+  revert w. induction t as [|x t IH]; intros [|y w] H; cbn in *; try discriminate; auto.
+Qed.
+
+Lemma inject_nat_nonzero (n : nat) : n <> O -> ~ inject_Z (Z.of_nat n) == 0.
+Proof. intros H E. unfold Qeq in E. cbn in E. lia. Qed.
+
+(* the statistic computed by project is the weighted average  sum(t_i w_i) / sum(w_i) *)
+Lemma project_weighted_mean (t w : list Q) : length t = length w -> w <> [] -> ~ qseqsum w == 0 ->
+  wstat Qops t (fst (norm_weights Qops w)) == qseqsum (map2 Qmult t w) / qseqsum w.
+Proof.
+  intros L Hw Hs. unfold wstat, norm_weights, mean. cbn [fst omul odiv oofnat Qops].
+  rewrite map2_map_length by exact L.
+  assert (Ln : ~ inject_Z (Z.of_nat (length w)) == 0).
+  { apply inject_nat_nonzero. destruct w; [congruence | discriminate]. }
+  set (n := inject_Z (Z.of_nat (length w))) in *.
+  assert (Hn : ~ qseqsum w / n == 0).
+  { intro E. apply Hs. setoid_replace (qseqsum w) with (qseqsum w / n * n) by (field; exact Ln). rewrite E. ring. }
+  rewrite seqsum_scaled by exact Hn. field. split; assumption.
+Qed.
+
+(* the rescaled weights have mean one *)
+Lemma norm_weights_mean_one (w : list Q) : w <> [] -> ~ qseqsum w == 0 ->
+  qmean (fst (norm_weights Qops w)) == 1.
+Proof.
+  intros Hw Hs.
+  assert (E : qmean (fst (norm_weights Qops w)) == wstat Qops (map (fun _ => 1) w) (fst (norm_weights Qops w))).
+  { unfold wstat, norm_weights. cbn [fst omul odiv Qops]. generalize (mean Qops w). intro c.
+    assert (M : forall l : list Q, veq (map (fun x => x / c) l) (map2 Qmult (map (fun _ => 1) l) (map (fun x => x / c) l))).
+    { induction l as [|x l IH]; cbn; constructor; [ring | exact IH]. }
+    unfold mean. specialize (M w). rewrite (veq_length _ _ M).
+    assert (S : forall l l', veq l l' -> qseqsum l == qseqsum l').
+    { induction 1 as [|x y l l' Hxy Hl IH]; [reflexivity|]. rewrite !seqsum_cons, Hxy, IH. reflexivity. }
+    rewrite (S _ _ M). reflexivity. }
+  rewrite E, project_weighted_mean; [| rewrite map_length; reflexivity | exact Hw | exact Hs].
+  assert (O1 : forall l : list Q, qseqsum (map2 Qmult (map (fun _ => 1) l) l) == qseqsum l).
+  { induction l as [|x l IH]; [reflexivity|]. cbn [map map2]. rewrite !seqsum_cons, IH. ring. }
+  rewrite O1. field. exact Hs.
+Qed.
+
+(* NaturalNormal.invert_sufficient_statistics: the member has mean m1 and second moment m2 *)
+Lemma natural_moment_match (m1 m2 : Q) : ~ m2 - m1 * m1 == 0 ->
+  match from_suff Qops FNatural [m1; m2] with
+  | [e1; e2] => - e1 / (2 * e2) == m1 /\ - (1 # 1) / (2 * e2) + m1 * m1 == m2
+  | _ => False
+  end.
+Proof. intro H. cbn. split; field; auto. Qed.
